@@ -32,7 +32,7 @@ REQUIRED = [
     ("liquid/context.py", "RenderContext.get"),
     ("liquid/builtin/filters/misc.py", "default"),
 ]
-MIN_COUNTERS = {"undefined_created_default": 500, "strict_succeeded": 100, "strict_raised_UndefinedError": 100, "must_raise_probes": 20}
+MIN_COUNTERS = {"undefined_created_default": 500, "strict_succeeded": 100, "strict_raised_UndefinedError": 100, "must_raise_probes": 400}
 
 CREATED = {"n": 0}
 
@@ -63,6 +63,14 @@ def run(case, kind: str, data):
     return o, CREATED["n"]
 
 
+def path_class(path: str) -> str:
+    if ".first" in path or ".last" in path:
+        return "first-last-of-empty-or-missing"
+    if "[" in path:
+        return "index-or-bracket"
+    return "dotted" if "." in path else "root"
+
+
 def construct_of(src: str) -> str:
     import re
 
@@ -74,6 +82,9 @@ def judge(ctx: core.Ctx, case: dict[str, Any]) -> None:
     data = V.dec(case["data"])
     if case.get("probe"):
         o, n = run(case, "strict", data)
+        if not o.ok and o.err_class == "LiquidSyntaxError":
+            ctx.count("probe_not_parseable_skipped")  # e.g. a bracketed root as a filter argument: not this property's subject
+            return
         ctx.count("must_raise_probes")
         if o.ok or o.err_class != "UndefinedError":
             ctx.evaluations += 1
@@ -158,9 +169,32 @@ PROBES = [
 ]
 
 
+# paths that certainly do not resolve against PROBE_DATA x contexts that output / iterate / compare / filter them
+MISSING = [
+    "nosuch", "h.nosuch", "h['nosuch']", "h[nosuch]", "nosuch.a.b", "h.a.b", "xs[9]", "xs[-9]", "xs.nosuch", "e.first", "e.last", "e[0]", "e[-1]", "eh.first", "eh.last",
+    "eh.k", "s.nope", "s[0].x", "xs[0].y", "d.a.nope.x", "d.list[3]", "d.list.first.z", "n.size.x", "['nosuch']", "h.e2.first", "h.e2[0]",
+]
+USES = [
+    ("output", "{{ @ }}"), ("echo", "{% echo @ %}"), ("iterate", "{% for i in @ %}x{% endfor %}"), ("iterate-tablerow", "{% tablerow i in @ %}x{% endtablerow %}"),
+    ("compare-eq", "{% if @ == 1 %}y{% endif %}"), ("compare-ne-right", "{% if 1 != @ %}y{% endif %}"), ("compare-lt", "{% if @ < 1 %}y{% endif %}"),
+    ("compare-contains", "{% if @ contains 'a' %}y{% endif %}"), ("compare-case", "{% case @ %}{% when 1 %}y{% endcase %}"), ("compare-when", "{% case 1 %}{% when @ %}y{% endcase %}"),
+    ("filter-upcase", "{{ @ | upcase }}"), ("filter-size", "{{ @ | size }}"), ("filter-join", "{{ @ | join: ',' }}"), ("filter-plus", "{{ @ | plus: 1 }}"),
+    ("filter-arg", "{{ 'a' | append: @ }}"), ("filter-first", "{{ @ | first }}"), ("assign-output", "{% assign v = @ %}{{ v }}"), ("capture", "{% capture v %}{{ @ }}{% endcapture %}"),
+    ("liquid-echo", "{% liquid\n echo @\n%}"), ("range", "{% for i in (1..@) %}x{% endfor %}"),
+]
+PROBE_DATA = {"h": {"a": 1, "e2": []}, "xs": [1], "e": [], "eh": {}, "s": "str", "n": 5, "d": {"a": {"b": 1}, "list": ["p"]}}
+
+
 def cases(ctx: core.Ctx):
     for name, src in PROBES:
         yield {"source": src, "data": V.enc({"h": {"a": 1}, "xs": [1]}), "probe": name}
+    k = 0
+    for path in MISSING:
+        for use, t in USES:
+            k += 1
+            if k % ctx.nshards != ctx.shard:
+                continue
+            yield {"source": t.replace("@", path), "data": V.enc(PROBE_DATA), "probe": f"{use}:{path_class(path)}", "async": k % 5 == 0}
     rng = ctx.rng("cases")
     for _ in range(ctx.budget(5000, 400_000)):
         yield gen_case(rng)
